@@ -405,7 +405,11 @@ def proxy_proof_gate(
         # this catches header injection without a separate multi-value API.
         raw = req.get_header(PROOF_HEADER)
         try:
-            if not raw:
+            # Absent and empty are different rows of the verifier table: only a
+            # missing header is `no_proof`. A header that is present with an
+            # empty value falls through to verify_proof, which reports it as
+            # `malformed` like every other unparseable value.
+            if raw is None:
                 raise ProofError("no_proof", "header absent")
             if "," in raw:
                 raise ProofError("malformed", "multiple proof headers")
